@@ -118,6 +118,10 @@ static void on_request(int slot, coap_resource_t *r, coap_session_t *s, const co
 #define HND(n) static void hnd_##n(coap_resource_t *r, coap_session_t *s, const coap_pdu_t *req, \
                                    const coap_string_t *q, coap_pdu_t *resp) { on_request(n, r, s, req, q, resp); }
 HND(1) HND(2) HND(3) HND(4) HND(5) HND(6) HND(7)
+static void hnd_proxy(coap_resource_t *r, coap_session_t *s, const coap_pdu_t *req,
+                      const coap_string_t *q, coap_pdu_t *resp) {
+  on_request((int)coap_pdu_get_code(req), r, s, req, q, resp);
+}
 static coap_method_handler_t hnds[7] = {hnd_1, hnd_2, hnd_3, hnd_4, hnd_5, hnd_6, hnd_7};
 
 static void reg_methods(coap_resource_t *r, unsigned mask) {
@@ -206,9 +210,14 @@ static int setup(const char *mpr, const char *kopts, const char *res, const char
       free(hb);
       names[nn++] = z;
     }
-    coap_resource_t *r = coap_resource_proxy_uri_init2(hnds[0], (size_t)nn, names, atoi(f));
+    /* the proxy resource keeps the handlers coap_resource_proxy_uri_init2() presets for all
+     * methods (hnd_proxy logs the request's method as its slot); only the methods outside the
+     * mask are taken away again */
+    coap_resource_t *r = coap_resource_proxy_uri_init2(hnd_proxy, (size_t)nn, names, atoi(f));
     if (r) {
-      reg_methods(r, (unsigned)atoi(m));
+      unsigned mask = (unsigned)atoi(m);
+      for (int mm = 1; mm <= 7; mm++)
+        if (!((mask >> (mm - 1)) & 1)) coap_register_request_handler(r, (coap_request_t)mm, NULL);
       coap_add_resource(ctx, r);
     }
     for (int i = 0; i < nn; i++) free((void *)names[i]);
